@@ -100,6 +100,26 @@ CLAIMS["C17"] = dict(
         "block width could not be confirmed offline).",
    technique="Lean 4 proof over source-extracted tables (translator) + exhaustive 2^24 correspondence sweep", ref="5.17")
 
+CLAIMS["C11"] = dict(
+   text="Lean 4 theorems (Props/C11.lean): per downlink format / type-code class a 'modifies' theorem - an accepted frame of that class assigns "
+        "nothing outside an explicit field set, on both update paths and for all options (12 classes: DF0/16/other, DF4, DF5, DF11, TC1-4, 5-8, "
+        "9-18, 19, 20-22, 31, other TC, DF20/21); hence frames of a format that does not carry a parameter never change it; the generic history "
+        "lemma latest_wins; a surface squitter blanks the altitude; no cross-talk (C03.row_isolation). What a carrying frame assigns is C05-C10. "
+        "Re-feed idempotence is proved per update helper only (refeed_idempotent_partial: position slots and Comm-B stages not covered) and is "
+        "exercised by the correspondence check, which feeds every frame twice.",
+   note="trusted: Lean kernel and standard axioms; harness; the reference fold of the check (carried-parameter table taken from the property text). "
+        "Partial: full applyFrame idempotence is validated, not proved.",
+   technique="Lean 4 proof (modifies theorems via field erasers, history induction) + bounded-exhaustive and random sequences against model and reference fold", ref="5.11")
+CLAIMS["C19"] = dict(
+   text="Lean 4 theorems (Props/C19.lean): the decoding step does not take -i/-o/-u or logging options at all; -c changes counters only; one step of "
+        "-U neutrality for every accepted DF4 (with altitude) / DF5 / DF11 / DF17 frame of any type code: rows that agree on callsign, altitude, "
+        "squawk, position, CPR slots and times, distance, speed, track, vertical rate, category, surveillance status and last contact still agree "
+        "afterwards whichever path each side takes (simulation relation); the creating frame is path-independent. Correspondence: option pairs over "
+        "generated and recorded histories, -O pairs, -U x -R on valid histories with time steps.",
+   note="trusted: Lean kernel and standard axioms; harness. Not proved: that -O affects only the distance column (distance is written by "
+        "update_position and read by nobody; validated by option pairs); -M/-D/-l are side effects outside the model, validated by running the reader.",
+   technique="Lean 4 proof (one-step simulation between the two update paths) + differential runs of the real reader under option pairs", ref="5.19")
+
 NOT_YET = "check not built yet in this revision; listed so that the manifest stays truthful while the framework grows"
 
 def main():
